@@ -18,7 +18,7 @@ LEVEL = "fault_enumeration"
 ENGINE = "E4"
 TECHNIQUE = "exhaustive enumeration of single faults x base cases x {assembly, binary} x {API bool/list, CLI}, each fault injected into files/environment of an otherwise valid found-case (after a decoy run at the same paths); oracle: error / non-zero exit, never a negative verdict"
 RULE = ("base cases whose fault-free verdict is 'found' (assembly: plain rule, rule with valid_addr_range, rule with macros; "
-        "binary: plain rule, rule with sections) x EVERY single fault of the menu: rule file missing / a directory / not "
+        "rule whose macros all come from the macro file; binary: plain rule, rule with sections) x EVERY single fault of the menu: rule file missing / a directory / not "
         "UTF-8 / empty; 6 kinds of malformed YAML; top level not a mapping; pattern missing / null / scalar / empty list / "
         "mapping; config scalar / list / null; each config entry wrongly typed (mnemonics-full-match, operands-full-match, "
         "sections x3, valid_addr_range x6, its min/max); macros not a list x3, macro without name / pattern; empty $and / "
@@ -28,7 +28,7 @@ RULE = ("base cases whose fault-free verdict is 'found' (assembly: plain rule, r
         "not an object file / truncated object; objdump absent from PATH / exiting 1 with stderr / exiting 1 after "
         "partial output / killed by a signal. Each fault is injected after a decoy operation (a valid, non-matching rule "
         "or input at the very same paths) in the same process, so stale state cannot mask it. Executed through the API in "
-        "bool/first and list/all mode and through the CLI. Oracle: the operation raises (API) / exits non-zero (CLI); "
+        "bool/first and list/all mode, for input faults also through one MasterOfPuppets object used first on a valid input and then pointed at the faulty one, and through the CLI. Oracle: the operation raises (API) / exits non-zero (CLI); "
         "returning False / [] / logging 'Pattern not found' is the violation for every fault; reporting 'found' is a "
         "violation too for the faults the statement lists by name (files, disassembler, malformed YAML, pattern / config "
         "entries, empty group, $not arity, $deref without main_reg, repetition bounds, undefined macro) and counted as "
@@ -55,6 +55,7 @@ BASES = {
     "asm_plain": dict(rule=make_rule_doc([{"mov": ["rax"]}, "push"]), binary=False, lib=False),
     "asm_range": dict(rule=make_rule_doc([{"call": ["valid_addr"]}], {"valid_addr_range": {"min": "401000", "max": "401fff"}}), binary=False, lib=False),
     "asm_macro": dict(rule=make_rule_doc([{"mov": ["@r"]}, "@lib"], None, [{"name": "@r", "pattern": "rax"}]), binary=False, lib=True),
+    "asm_libonly": dict(rule=make_rule_doc([{"mov": ["rax"]}, "@lib"]), binary=False, lib=True),     # every definition comes from the macro file
     "bin_plain": dict(rule=make_rule_doc(["mov", "push"]), binary=True, lib=False),
     "bin_sections": dict(rule=make_rule_doc(["mov", "push"], {"sections": [".text"]}), binary=True, lib=False),
 }
@@ -171,7 +172,7 @@ def rule_faults():
 
 
 def lib_faults():
-    return [("lib_missing", ("missing",)), ("lib_malformed", "macros: [\n"), ("lib_no_macros_key", "other: 1\n"),
+    return [("lib_missing", ("missing",)), ("lib_malformed", "macros: [\n"), ("lib_no_macros_key", "other: 1\n"), ("lib_empty_list", "macros: []\n"),
             ("lib_macros_null", "macros:\n"), ("lib_without_needed", yaml.safe_dump({"macros": [{"name": "@other", "pattern": "push"}]}))]
 
 
@@ -270,6 +271,30 @@ def api_run(h, rp, ip, binary, libs, ret, mode):
         return "error", f"{type(e).__name__}: {str(e)[:120]}"
 
 
+def api_reuse(h, rp, first_input, second_input, binary, libs):
+    gd = h.gd
+    cfg = gd.MatchConfig(pattern_pathstr=rp, input_file=first_input,
+                         input_file_type=gd.InputFileType.binary if binary else gd.InputFileType.assembly,
+                         return_mode=gd.MatchingReturnMode.bool, matching_mode=gd.MatchingSearchMode.first_find, macros=libs)
+    try:
+        mop = h.MasterOfPuppets(cfg)
+        first = mop.perform_matching()
+    except BaseException as e:  # noqa
+        if isinstance(e, KeyboardInterrupt):
+            raise
+        return "error", f"first use raised {type(e).__name__}"     # not the subject here, and not a silent negative
+    if first:
+        return "found", "decoy input matched"
+    mop.match_config.input_file = second_input
+    try:
+        v = mop.perform_matching()
+        return ("found" if v else "NOTFOUND"), repr(v)
+    except BaseException as e:  # noqa
+        if isinstance(e, KeyboardInterrupt):
+            raise
+        return "error", f"{type(e).__name__}: {str(e)[:120]}"
+
+
 def cli_run(h, rp, ip, binary, libs, env_path=None):
     cwd = h.path("clicwd")
     os.makedirs(cwd, exist_ok=True)
@@ -350,6 +375,16 @@ def run_case(h, bn, kind, fname):
             results[f"api_{ret}_{mode}"] = api_run(h, rp, ip, b["binary"], libs, ret, mode)
         finally:
             os.environ["PATH"] = old_path
+    if kind == "input":
+        # one object used twice: first on a valid input at ANOTHER path (scanned, not found), then pointed at the faulty input
+        ip2 = ip + ".other" + (".o" if b["binary"] else ".s")
+        if b["binary"]:
+            build_bin(h, DECOY_BIN_SRC, ip2)
+        else:
+            _write(ip2, fmt_listing(DECOY_LISTING))
+        put_valid()
+        inject()
+        results["api_reuse"] = api_reuse(h, rp, ip2, ip, b["binary"], libs)
     put_valid()
     env_path = inject()
     results["cli"] = cli_run(h, rp, ip, b["binary"], libs, env_path)
